@@ -194,6 +194,44 @@ def run(ctx: core.Ctx):
         ctx.correspondence_broken("L3 subunit model vs real subunit objects (message handling / attribute reads)", disagreements[0])
     ctx.assumptions += ["subunits are driven through a stub connection exposing register/unregister_message_callback, put, get, num_commands_sent",
                         "values with exotic numeric syntax are not generated in the binding stream (see C04/C10)"]
+    # user-defined subclasses: a function re-declared in a subclass (other converter) is the function the subclass models; an added function is
+    # modelled too, whichever class of the hierarchy was instantiated first in this process
+    from ..realobj import StubConnection, subunit_class
+    from ynca.connection import YncaProtocolStatus as _St
+    from ynca.converters import StrConverter
+    from ynca.function import FunctionMixinBase
+    import copy as _copy
+    nsyn = 0
+    for c in T["classes"]:
+        base = subunit_class(c["py"])
+        base(StubConnection())                      # the parent class is instantiated first (what a process that uses both would do)
+        readable = [f for f in c["fns"] if f["get"]]
+        if not readable:
+            continue
+        f = rng.choice(readable)
+        d = getattr(base, f["attr"])
+        red = _copy.copy(d)
+        red.converter = StrConverter()
+        red._name_override = d.name
+        extra = _copy.copy(d)
+        extra.converter = StrConverter()
+        extra._name_override = "ZZEXTRA"
+        sub = type("Synth" + c["py"] + "Conv", (base,), {f["attr"]: red, "zzextra": extra})
+        for text in ("some text 123", "", "On"):
+            conn_ = StubConnection()
+            obj_ = sub(conn_)
+            nsyn += 1
+            ctx.case(("synthetic", c["py"], f["name"], text))
+            for fn_, attr_ in ((d.name, f["attr"]), ("ZZEXTRA", "zzextra")):
+                try:
+                    conn_.deliver(_St.OK, c["id"], fn_, text)
+                    got = getattr(obj_, attr_)
+                except Exception as e:  # noqa: BLE001
+                    got = f"<raised {type(e).__name__}>"
+                if got != text:
+                    ctx.violation(f"{c['py']} subclass that {'re-declares ' + fn_ + ' as a text function' if fn_ != 'ZZEXTRA' else 'adds the text function ZZEXTRA'}: after the device reported "
+                                  f"{fn_}={text!r} the attribute reads {got!r}", {"path": "synthetic", "class": c["py"], "function": fn_, "text": text}, {"kind": "synthetic-subclass"})
+    ctx.cov["synthetic_subclass_reads"] = nsyn
     from .. import b2check
     b2check.run_b2(ctx, wire_jobs, ["C03w"], label="end-to-end reads on a real connection", accept=False)
     return ctx.finish()
